@@ -110,6 +110,13 @@ class RuleAlias:
         return getattr(self._rep, name)
 
 
+def own_params(fn):
+    """parameter names without the bound first one of an instance / class method (a staticmethod or plain function has none)"""
+    ps = [a.arg for a in fn.args.args]
+    static = any(isinstance(d, ast.Name) and d.id == "staticmethod" for d in fn.decorator_list)
+    return ps[1:] if ps and ps[0] in ("self", "cls") and not static else ps
+
+
 def bind_named(fn, spec, skip_first=True, optional=()):
     """arguments for a call of `fn` from values the caller knows by the parameter names of the reference tree: [(name, value), ...].
     When the function still has parameters of those names they are bound by name (their order is the function's own business);
@@ -226,7 +233,15 @@ class Index:
             except SyntaxError as e:
                 raise AnalysisError(f"cannot parse {rel}: {e}")
             if rel.endswith(".py") and os.environ.get("ALLFEDSA_NO_CANON") != "1":
-                from .canon import canonicalise
+                from .canon import canonicalise, namedtuples_as_tuples
+                from .canon import flatten_tuple_params
+                n_tp = flatten_tuple_params(tree, self._tuple_params()) if rel.startswith("src/") else 0
+                if n_tp:
+                    self.canon_counts["tuple parameters flattened"] = self.canon_counts.get("tuple parameters flattened", 0) + n_tp
+                nts_, rets_ = self._namedtuples()
+                n_nt = namedtuples_as_tuples(tree, nts_, rets_)
+                if n_nt:
+                    self.canon_counts["named tuples read as tuples"] = self.canon_counts.get("named tuples read as tuples", 0) + n_nt
                 counts = canonicalise(tree, self._class_table())
                 for k, v in counts.items():
                     self.canon_counts[k] = self.canon_counts.get(k, 0) + v
@@ -259,6 +274,56 @@ class Index:
         except (OSError, ValueError):
             ref = {}
         by_fn, by_callee = {}, {}
+        self._method_renames = {}
+        if ref and os.environ.get("ALLFEDSA_NO_REFNAMES") != "1":
+            # methods (and module-level functions) renamed against the reference tree: in one class (file) exactly one reference name is gone
+            # and exactly one new name with the same parameter list has appeared, and the new name is defined nowhere else
+            all_defs = {}
+            parsed = {}
+            for rel in self.py_files("src"):
+                try:
+                    with open(self.path(rel), encoding="utf-8") as f:
+                        parsed[rel] = ast.parse(f.read())
+                except (SyntaxError, OSError):
+                    continue
+                for n in ast.walk(parsed[rel]):
+                    if isinstance(n, ast.FunctionDef):
+                        all_defs[n.name] = all_defs.get(n.name, 0) + 1
+            for rel, mod in parsed.items():
+                if rel not in ref:
+                    continue
+                groups = {None: [n for n in mod.body if isinstance(n, ast.FunctionDef)]}
+                for c in [n for n in mod.body if isinstance(n, ast.ClassDef)]:
+                    groups[c.name] = [m for m in c.body if isinstance(m, ast.FunctionDef)]
+                for cname, fns in groups.items():
+                    pre = (cname + ".") if cname else ""
+                    ref_here = {q[len(pre):]: v for q, v in ref[rel].items() if (q.startswith(pre) and "." not in q[len(pre):]) and (cname or "." not in q)}
+                    cur_here = {f.name: [a.arg for a in f.args.args] for f in fns}
+                    gone = [n for n in ref_here if n not in cur_here]
+                    came = [n for n in cur_here if n not in ref_here]
+                    import difflib
+                    sim = lambda a_, b_: difflib.SequenceMatcher(None, a_, b_).ratio()
+                    for new_name in came:
+                        if all_defs.get(new_name, 0) != 1 or new_name.startswith("__"):
+                            continue
+                        cands = [g for g in gone if ref_here[g] == cur_here[new_name]]
+                        others = [c_ for c_ in came if c_ != new_name and cur_here[c_] == cur_here[new_name]]
+                        exact = len(cands) == 1 and not others
+                        if not exact:
+                            # parameters may have been renamed / reordered in the same commit: the number of parameters and the names decide
+                            cands = [g for g in gone if len(ref_here[g]) == len(cur_here[new_name])]
+                            others = [c_ for c_ in came if c_ != new_name and len(cur_here[c_]) == len(cur_here[new_name])]
+                        if not cands:
+                            continue
+                        if exact:
+                            best = cands[0]              # the only name gone with this parameter list
+                        else:
+                            # several methods of the same shape were renamed: the names decide, when they do so clearly and mutually
+                            best = max(cands, key=lambda g: sim(new_name, g))
+                            if sim(new_name, best) < 0.6 or any(sim(c_, best) >= sim(new_name, best) for c_ in others):
+                                continue
+                        if all_defs.get(best, 0) == 0 and best not in self._method_renames.values():
+                            self._method_renames[new_name] = best
         if ref and os.environ.get("ALLFEDSA_NO_REFNAMES") != "1":
             from .canon import unique_methods
             classes = self._class_table()
@@ -279,6 +344,8 @@ class Index:
                         defs.extend((f"{n.name}.{m.name}", n.name, m) for m in n.body if isinstance(m, ast.FunctionDef))
                 for qual, cname, fn in defs:
                     want = ref[rel].get(qual)
+                    if want is None and fn.name in self._method_renames:
+                        want = ref[rel].get((cname + "." if cname else "") + self._method_renames[fn.name])
                     a = fn.args
                     cur = [x.arg for x in a.args]
                     if want is None or len(want) != len(cur) or sorted(want) == sorted(cur) or a.vararg or a.kwarg or a.kwonlyargs or a.posonlyargs:
@@ -316,22 +383,33 @@ class Index:
                         t.id for n in ast.walk(fn) if isinstance(n, ast.comprehension) for t in ast.walk(n.target) if isinstance(t, ast.Name)}
                     if set(ren) & rebound:
                         continue
-                    by_fn[(rel, qual)] = ren
+                    rname = self._method_renames.get(fn.name, fn.name)       # keys use the reference name (methods are renamed back first)
+                    by_fn[(rel, (cname + "." if cname else "") + rname)] = ren
                     if cname is None:
-                        by_callee[("func", rel, fn.name)] = ren
+                        by_callee[("func", rel, rname)] = ren
                     elif fn.name == "__init__":
                         if cname in classes:
                             by_callee[("ctor", cname)] = ren
                     elif fn.name in uniq:
-                        by_callee[("method", fn.name)] = ren
+                        by_callee[("method", rname)] = ren
         self._renames = (by_fn, by_callee)
         return self._renames
 
     def _restore_reference_names(self, tree, rel):
         by_fn, by_callee = self._param_renames()
-        if not by_fn:
-            return 0
         n_done = 0
+        mren = getattr(self, "_method_renames", {})
+        if mren:
+            for n in ast.walk(tree):
+                if isinstance(n, ast.FunctionDef) and n.name in mren:
+                    n.name = mren[n.name]
+                    n_done += 1
+                elif isinstance(n, ast.Attribute) and n.attr in mren:
+                    n.attr = mren[n.attr]
+                elif isinstance(n, ast.Name) and n.id in mren and isinstance(n.ctx, ast.Load):
+                    n.id = mren[n.id]
+        if not by_fn:
+            return n_done
         defs = []
         for n in tree.body:
             if isinstance(n, ast.FunctionDef):
@@ -439,6 +517,32 @@ class Index:
                         names.add(tok)
             self._anchors = names
         return self._anchors
+
+    def _tuple_params(self):
+        if getattr(self, "_tp", None) is None:
+            from .canon import tuple_param_table
+            raw = []
+            for r in self.py_files("src"):
+                try:
+                    with open(self.path(r), encoding="utf-8") as f:
+                        raw.append(ast.parse(f.read()))
+                except (SyntaxError, OSError):
+                    continue
+            self._tp = tuple_param_table(raw)
+        return self._tp
+
+    def _namedtuples(self):
+        if getattr(self, "_nt", None) is None:
+            from .canon import namedtuple_tables
+            raw = []
+            for r in self.py_files("src"):
+                try:
+                    with open(self.path(r), encoding="utf-8") as f:
+                        raw.append(ast.parse(f.read()))
+                except (SyntaxError, OSError):
+                    continue
+            self._nt = namedtuple_tables(raw)
+        return self._nt
 
     def _class_table(self):
         """classes of src/ with a repository-wide unique name (raw parse; used to decide which callee a call certainly reaches)"""
